@@ -224,6 +224,11 @@ macro_rules! check_event {
             if got != want {
                 return Verdict::fail(format!("resolve_element({:?}) at {:?} of element #{}: expected {:?}, got {:?}", name, want_kind, id, want, got));
             }
+            // the generic entry point: resolve(name, attribute = false) is resolve_element
+            let got = got_res(&$r.resolve(QName(name.as_bytes()), false).0);
+            if got != want {
+                return Verdict::fail(format!("resolve({:?}, false) at {:?} of element #{}: expected {:?}, got {:?}", name, want_kind, id, want, got));
+            }
             if let Some(res) = $resolved {
                 let got = got_res(res);
                 if got != want {
@@ -239,6 +244,10 @@ macro_rules! check_event {
                     let got = got_res(&$r.resolve_attribute(QName(k.as_bytes())).0);
                     if got != want {
                         return Verdict::fail(format!("resolve_attribute({:?}) on element #{} <{}>: expected {:?}, got {:?}", k, id, name, want, got));
+                    }
+                    let got = got_res(&$r.resolve(QName(k.as_bytes()), true).0);
+                    if got != want {
+                        return Verdict::fail(format!("resolve({:?}, true) on element #{} <{}>: expected {:?}, got {:?}", k, id, name, want, got));
                     }
                 }
                 if let Event::Start(s) | Event::Empty(s) = ev {
@@ -469,8 +478,82 @@ fn res_back(r: OwnedRes) -> ResolveResult<'static> {
     }
 }
 
+/// A chain nested `depth` deep under an element that declares a prefix and a default namespace:
+/// the declarations must still apply at the bottom and on the way up (levels beyond u8 / u16).
+#[derive(Clone, Debug, Serialize, Deserialize, PartialEq)]
+pub struct DeepCase {
+    pub depth: u32,
+    /// every `redeclare`-th level re-declares the prefix with another URI for its own subtree (0 = never)
+    pub redeclare: u32,
+}
+
+pub fn check_deep(c: &DeepCase) -> Verdict {
+    use quick_xml::name::ResolveResult;
+    let mut doc = String::from("<r xmlns:p='u1' xmlns='d1'>");
+    for k in 0..c.depth {
+        if c.redeclare > 0 && k % c.redeclare == c.redeclare - 1 {
+            doc.push_str("<b xmlns:p='u2'>");
+        } else {
+            doc.push_str("<b>");
+        }
+    }
+    doc.push_str("<p:c p:k='1' k='2'/>");
+    for _ in 0..c.depth {
+        doc.push_str("</b>");
+    }
+    doc.push_str("<p:z/></r>");
+    let mut r = NsReader::from_str(&doc);
+    // URI of p at the bottom: the innermost re-declaration, if any level has one
+    let bottom_p = if c.redeclare > 0 && c.depth >= c.redeclare { "u2" } else { "u1" };
+    let show = |x: &ResolveResult| match x {
+        ResolveResult::Bound(n) => format!("Bound({})", String::from_utf8_lossy(n.as_ref())),
+        ResolveResult::Unbound => "Unbound".to_string(),
+        ResolveResult::Unknown(p) => format!("Unknown({})", String::from_utf8_lossy(p)),
+    };
+    let mut seen_bottom = false;
+    let mut seen_after = false;
+    for _ in 0..(2 * c.depth as usize + 10) {
+        match r.read_resolved_event() {
+            Ok((res, Event::Empty(e))) => {
+                let name = e.name();
+                let want = if name.as_ref() == b"p:c" {
+                    seen_bottom = true;
+                    format!("Bound({})", bottom_p)
+                } else {
+                    seen_after = true;
+                    "Bound(u1)".to_string()
+                };
+                if show(&res) != want {
+                    return Verdict::fail(format!("depth {} (re-declaration every {}): <{}> resolves to {}, expected {}", c.depth, c.redeclare, String::from_utf8_lossy(name.as_ref()), show(&res), want));
+                }
+                if name.as_ref() == b"p:c" {
+                    let a = show(&r.resolve_attribute(QName(b"p:k")).0);
+                    let u = show(&r.resolve_attribute(QName(b"k")).0);
+                    let d = show(&r.resolve_element(QName(b"x")).0);
+                    if a != format!("Bound({})", bottom_p) || u != "Unbound" || d != "Bound(d1)" {
+                        return Verdict::fail(format!("depth {}: at the bottom p:k -> {}, k -> {}, unprefixed element -> {}", c.depth, a, u, d));
+                    }
+                    let n = r.prefixes().count();
+                    if n != 2 {
+                        return Verdict::fail(format!("depth {}: prefixes() lists {} bindings at the bottom, expected 2 (default and p)", c.depth, n));
+                    }
+                }
+            }
+            Ok((_, Event::Eof)) => break,
+            Ok(_) => {}
+            Err(e) => return Verdict::fail(format!("depth {}: error {:?}", c.depth, e)),
+        }
+    }
+    if !seen_bottom || !seen_after {
+        return Verdict::fail(format!("depth {}: the document was not read to its end", c.depth));
+    }
+    Verdict::pass(true).class(if c.depth > 65536 { "deeper-than-65536" } else if c.depth > 255 { "deeper-than-255" } else { "shallow-chain" })
+}
+
 fn run(ctx: &Ctx) {
     ctx.run_regress::<Case, _>(check);
+    let depths: Vec<u32> = vec![1, 2, 31, 32, 33, 127, 128, 129, 255, 256, 257, 1000, 32767, 32768, 32769, 65535, 65536, 65537, 70001, ctx.tier.pick(100_000, 300_000)];
+    ctx.run_indexed("very-deep-chains", depths.len() as u64 * 4, |i| Some(DeepCase { depth: depths[(i / 4) as usize], redeclare: [0u32, 1, 7, 256][(i % 4) as usize] }), check_deep);
     let p = DocParams::namespaces();
     // small trees x all skip histories
     let nsmall = ctx.tier.pick(6000usize, 60_000);
@@ -561,6 +644,10 @@ fn run(ctx: &Ctx) {
 }
 
 fn replay(_stage: &str, case: &Value) -> Result<Verdict, String> {
+    if case.get("depth").is_some() {
+        let c: DeepCase = serde_json::from_value(case.clone()).map_err(|e| e.to_string())?;
+        return Ok(check_deep(&c));
+    }
     let c: Case = serde_json::from_value(case.clone()).map_err(|e| e.to_string())?;
     Ok(check(&c))
 }
